@@ -121,6 +121,12 @@ func cgroupScenario(s *Sim, params map[string]string) {
 	hb := Pick(t, "cfg", 300*time.Millisecond, time.Second, 3*time.Second)
 	session := Pick(t, "cfg", 4*time.Second, 10*time.Second)
 	rebalance := Pick(t, "cfg", 2*time.Second, 8*time.Second)
+	if t.Intn("longrebalance", 3) == 0 {
+		// a rebalance timeout well above the session timeout: joins may be
+		// held at the coordinator for longer than a session lasts
+		rebalance = 20 * time.Second
+		session = 4 * time.Second
+	}
 	backoff := Pick(t, "cfg", 500*time.Millisecond, 2*time.Second, 5*time.Second)
 	timeout := Pick(t, "cfg", 2*time.Second, 5*time.Second)
 	watch := t.Intn("cfg", 3) == 0
@@ -388,6 +394,21 @@ func cgroupScenario(s *Sim, params map[string]string) {
 					s.Fail("C15", "R6-close-hung", "member %d: ConsumerGroup.Close invoked at %v did not return by %v (run ended: %s); goroutines: %s", m.k, m.closeInvAt, s.Now(), s.Ended, StuckReport(30))
 				}
 			}
+		}
+		// R7: a join is waited for until Timeout + RebalanceTimeout: the
+		// coordinator may hold it that long, whatever the session timeout
+		for _, ag := range g.AnsweredGone {
+			for _, m := range members {
+				if m.clientID != ag.ClientID || (m.closeInv != 0 && m.closeInvAt <= ag.ClosedAt) {
+					continue
+				}
+				if ag.ClosedAt < ag.ReqAt+timeout+ag.Rebalance-slack && ag.At-ag.ReqAt <= ag.Rebalance+slack {
+					s.Fail("C15", "R7-join-abandoned", "member %d (%s): the JoinGroup that reached the coordinator at %v (rebalance timeout %v, session timeout %v, Timeout %v) was answered successfully at %v, within the rebalance timeout, but the client had closed the connection at %v, %v into the wait", m.k, ag.Member, ag.ReqAt, ag.Rebalance, session, timeout, ag.At, ag.ClosedAt, ag.ClosedAt-ag.ReqAt)
+				}
+			}
+		}
+		if g.LongestHold > session {
+			s.Count("join-held-beyond-session-timeout")
 		}
 		for _, m := range members {
 			if m.cg == nil {
